@@ -26,16 +26,16 @@ type half struct {
 
 // Conn is one end of an in-memory duplex stream (implements netio.Conn).
 type Conn struct {
-	Name         string
-	in, out      *half
-	peer         *Conn
-	rdl, wdl     int64
-	closed       bool
-	Local, Peer  net.Addr
-	ReadChunk    int // when > 0, a Read returns at most this many bytes
-	CloseWrites  int
-	Closes       int
-	WriteErr     error // injected: every Write fails with this error
+	Name        string
+	in, out     *half
+	peer        *Conn
+	rdl, wdl    int64
+	closed      bool
+	Local, Peer net.Addr
+	ReadChunk   int // when > 0, a Read returns at most this many bytes
+	CloseWrites int
+	Closes      int
+	WriteErr    error // injected: every Write fails with this error
 }
 
 // Pair returns the two ends of a stream whose per-direction buffer holds cap bytes.
@@ -149,6 +149,9 @@ func (c *Conn) setDL(p *int64, t time.Time) {
 		return
 	}
 	*p = t.UnixNano()
+	if *p <= 0 {
+		*p = 1 // conn.ALongTimeAgo is time.Unix(0, 0); 0 means "no deadline" here
+	}
 	if d := t.Sub(vsched.Now()); d > 0 && vsched.On() {
 		// let the clock reach the deadline so that a blocked call becomes enabled
 		vsched.AddTimer(d, 0, func() {})
